@@ -258,6 +258,7 @@ func runC08(w *core.World, r *core.Report) {
 	}
 	// ---- R7 -----------------------------------------------------------------------------------
 	checkLibraryBounds(w, r, "R7", reach)
+	checkFlagSizeRelation(w, r, "R7")
 	// ---- R8 -----------------------------------------------------------------------------------
 	checkMapWrites(w, r, "R8", reach)
 	// ---- R9 -----------------------------------------------------------------------------------
